@@ -24,7 +24,7 @@ from txtorcon.torcontrolprotocol import TorControlProtocol
 PROPERTY = 'C04'
 
 METHODS = ['SAFECOOKIE', 'COOKIE', 'HASHEDPASSWORD', 'NULL']
-COOKIE = bytes(range(100, 132))
+COOKIE = b' ' + bytes(range(101, 131)) + b'\n'        # a cookie is 32 arbitrary bytes: these begin and end with white space
 COOKIE_CONDS = ['absent', 'dir', 'len0', 'len31', 'len33', 'valid', 'valid-odd-path', 'no-cookiefile']
 PROVIDERS = ['none', 'pw', 'empty', 'deferred', 'coroutine', 'raises']
 PASSWORD = 'pw'
@@ -40,9 +40,10 @@ def workdir():
         os.makedirs(_WORK, exist_ok=True)
         with open(os.path.join(_WORK, 'len0'), 'wb') as f:
             pass
-        for n in (31, 33):
-            with open(os.path.join(_WORK, 'len%d' % n), 'wb') as f:
-                f.write(COOKIE[:1] * n)
+        with open(os.path.join(_WORK, 'len31'), 'wb') as f:
+            f.write(b'c' * 31)
+        with open(os.path.join(_WORK, 'len33'), 'wb') as f:
+            f.write(bytes(range(100, 132)) + b'\n')           # 32 bytes and a line break are 33 bytes
         with open(os.path.join(_WORK, 'valid'), 'wb') as f:
             f.write(COOKIE)
         odd = os.path.join(_WORK, 'od d\\pa"th\x01')
